@@ -9,6 +9,9 @@
 -/
 import Fir.Model.Resample
 import Fir.Proofs.FixedLemmas
+import Fir.Model.SimdAlpha
+import Fir.Generated.Alpha
+import Fir.Generated.SimdAlpha
 
 namespace Fir.C02
 open Fir
@@ -49,7 +52,34 @@ theorem clip16_eq_clamp (v : Int) (p : Nat) (hp : p < 64) (hv : -(2 ^ 63 : Int) 
     clip16 v p = max 0 (min 65535 (v / 2 ^ p)) :=
   Fir.Proofs.clip16_eq_clamp v p hp hv
 
+/-! ### the SSE4.1 / AVX2 8-bit alpha divide (f32 reciprocal, Q8.8 x Q9.7 `mulhrs`, unsigned min) -/
+
+theorem simd_div8_all : (List.range 256).all (fun a => (List.range 256).all (fun c =>
+    Fir.Simd.simdDiv8 c a == Fir.Gen.div_and_clip c (Fir.Gen.recip_alpha a))) = true := by
+  decide +kernel
+
+/-- the per-lane model of the SIMD 8-bit `divide_alpha` (exact f32 quotient 65280/alpha, conversion to
+    a signed Q8.8 lane, `_mm_mulhrs_epi16`, `_mm_min_epu16`) equals the portable `div_and_clip` with the
+    translated reciprocal table for all 65,536 (colour, alpha) pairs - incl. alpha = 0 (integer
+    indefinite -> 0) and alpha = 1 (the Q8.8 lane is negative, the unsigned minimum saturates) -/
+theorem simd_div8_eq (c a : Nat) (hc : c < 256) (ha : a < 256) :
+    Fir.Simd.simdDiv8 c a = Fir.Gen.div_and_clip c (Fir.Gen.recip_alpha a) := by
+  have h := simd_div8_all
+  rw [List.all_eq_true] at h
+  have h2 := h a (List.mem_range.mpr ha)
+  rw [List.all_eq_true] at h2
+  simpa using h2 c (List.mem_range.mpr hc)
+
 /-! ### non-vacuity -/
 example : clip8 (300 * 2 ^ 14) 14 = 255 ∧ clip8 (-5) 3 = 0 ∧ clip8 (77 * 2 ^ 12 + 5) 12 = 77 := by decide
+
+/-- the source of the SIMD 8-bit divide kernels is the one `Fir.Simd.simdDiv8` was written against:
+    the same intrinsics in the same order with the same immediates and constants (extracted from
+    src/alpha/u8x{2,4}/{sse4,avx2}.rs by the translator on every run) -/
+theorem simd_div8_source_as_modelled : Fir.Gen.simdDiv8Skeleton = [
+  ("src/alpha/u8x4/sse4.rs::divide_alpha_4_pixels", "set1_epi32(0xff000000u32 as i32) set1_ps(255.0 * 256.0) set1_epi16(0xff) cvtepi32_ps cvtps_epi32 div_ps min_epu16 mulhrs_epi16 min_epu16 mulhrs_epi16 packus_epi16"),
+  ("src/alpha/u8x4/avx2.rs::divide_alpha_8_pixels", "set1_epi32(0xff000000u32 as i32) set1_ps(255.0 * 256.0) set1_epi16(0xff) cvtepi32_ps cvtps_epi32 div_ps min_epu16 mulhrs_epi16 min_epu16 mulhrs_epi16 packus_epi16"),
+  ("src/alpha/u8x2/sse4.rs::divide_alpha_8_pixels", "set1_epi16(0xff00u16 as i16) set1_epi16(0xff) set1_ps(255.0 * 256.0) cvtepi32_ps cvtps_epi32 div_ps cvtepi32_ps cvtps_epi32 div_ps mulhrs_epi16 min_epu16"),
+  ("src/alpha/u8x2/avx2.rs::divide_alpha_16_pixels", "set1_epi16(0xff00u16 as i16) set1_epi16(0xff) set1_ps(255.0 * 256.0) cvtepi32_ps cvtps_epi32 div_ps cvtepi32_ps cvtps_epi32 div_ps mulhrs_epi16 min_epu16")] := by rfl
 
 end Fir.C02
